@@ -220,6 +220,10 @@ func genAggRule(t *rapid.T, schema []PredInfo, head string, nKeys, nRed int, lab
 		return Rule{Head: h, Body: body, Do: do}, true
 	}
 	nPos := rapid.SampledFrom([]int{1, 1, 1, 1, 2, 2, 3}).Draw(t, "aggPos")
+	// Wildcards in an aggregated body: the library counts a single-atom body per fact and a multi-literal body per
+	// assignment of the named variables (the property does not say which is meant), so such a body is only reduced
+	// by min, max and distinct-collect, which give the same result either way. The first column stays named.
+	wildBody := rapid.IntRange(0, 5).Draw(t, "aggWildBody") == 0
 	usedBig := false
 	for i := 0; i < nPos; i++ {
 		p := rapid.SampledFrom(schema).Draw(t, "aggPred")
@@ -248,6 +252,13 @@ func genAggRule(t *rapid.T, schema []PredInfo, head string, nKeys, nRed int, lab
 			typ := p.Cols[c]
 			r := rapid.IntRange(0, 99).Draw(t, "aggArg")
 			switch {
+			case wildBody && c == 0 && typ != 'm':
+				v := g.fresh(typ)
+				pending = append(pending, [2]string{string(typ), v})
+				arg = Var(v)
+			case wildBody && c > 0 && r < 45:
+				arg = Var("_")
+				labels["wildcard-in-agg-body"] = true
 			case r < 25 && len(g.bound[typ]) > 0:
 				arg = Var(rapid.SampledFrom(g.bound[typ]).Draw(t, "aggReuse"))
 			case r < 32 && len(pending) > 0 && pending[len(pending)-1][0] == string(typ):
@@ -345,6 +356,16 @@ func genAggRule(t *rapid.T, schema []PredInfo, head string, nKeys, nRed int, lab
 		choice := rapid.IntRange(0, 6).Draw(t, "reducer")
 		if len(g.bound['n']) == 0 && choice >= 1 && choice <= 4 {
 			choice = 0
+		}
+		if wildBody {
+			switch {
+			case len(g.bound['n']) > 0:
+				choice = rapid.SampledFrom([]int{2, 3, 5}).Draw(t, "wildReducer")
+			case len(all) > 0:
+				choice = 5
+			default:
+				return Rule{}, false
+			}
 		}
 		if len(all) == 0 {
 			choice = 0
